@@ -4,6 +4,7 @@ import (
 	"bytes"
 	"context"
 	"fmt"
+	"maps"
 	"math/rand/v2"
 	"time"
 
@@ -25,7 +26,7 @@ func init() { core.Register(c01{}) }
 
 func (c01) ID() string { return "C01" }
 func (c01) Rule() string {
-	return "plans: valid signatures made by the real signing API (2 signers, JWS/COSE, 3 OCI descriptors sharing digests or sizes, 3 blobs sharing sizes, metadata variants, optional expiry), then 0-4 faults on the stored signatures (bit flip, byte insert, truncation, field-level JWS / element-level COSE splice between two stored envelopes, raw prefix+suffix splice, whitespace and unprotected-header edits), then <= 12 verifications through the four entry points with mis-delivery (signature of X presented for Y, other blob, other stated content media type, other envelope media type) under every non-skip level and legal override, required metadata (subset, superset, altered) and collaborators {healthy, trust anchor missing, store error, revoked, revocation error}. A share of the runs keeps one verifier object for every verification of the run. non-trivial: at least one verification of a mutated or mis-delivered signature; distinct: hash of the (mutation, delivery, configuration, verdict) sequence"
+	return "plans: valid signatures made by the real signing API (2 signers, JWS/COSE, 3 OCI descriptors sharing digests or sizes, 3 blobs sharing sizes, metadata variants, optional expiry), then 0-4 faults on the stored signatures (bit flip, byte insert, truncation, field-level JWS / element-level COSE splice between two stored envelopes, raw prefix+suffix splice, whitespace and unprotected-header edits), then <= 12 verifications through the four entry points with mis-delivery (signature of X presented for Y, other blob, other stated content media type, other envelope media type) under every non-skip level and legal override, required metadata (subset, superset, altered) and collaborators {healthy, trust anchor missing, store error, revoked, revocation error}. A share of the runs keeps one verifier object for every verification of the run; half of them keep the caller's required-metadata maps across calls (the oracle judges by pristine copies). non-trivial: at least one verification of a mutated or mis-delivered signature; distinct: hash of the (mutation, delivery, configuration, verdict) sequence"
 }
 func (c01) Components() map[string]string {
 	return map[string]string{
@@ -45,6 +46,7 @@ func (c01) Gen(r *rand.Rand, tier string, idx int) *core.Plan {
 	p.World["sharedVerifier"] = int64(r.IntN(2))
 	p.World["rival"] = int64(r.IntN(2))
 	p.World["decoy"] = int64(r.IntN(3) / 2)
+	p.World["heldMetadata"] = int64(idx % 2)
 	ns := 2 + r.IntN(3)
 	for i := 0; i < ns; i++ {
 		p.Ops = append(p.Ops, core.Op{Kind: "sign", I: []int64{int64(r.IntN(6)), int64(r.IntN(2)), int64(r.IntN(2)), int64(r.IntN(4)), int64(r.IntN(4) / 3)}})
@@ -118,6 +120,9 @@ func (l c01) Exec(env *core.Env) *core.Result {
 	sim.Go("world", func() {
 		ctx := context.Background()
 		var firstVerify *core.Op
+		// heldMeta[i]: the caller's own required-metadata map of variant i, built once and handed to every call of the
+		// run that requires it (a caller that assembles its options once); the oracle judges by the pristine variant
+		heldMeta := map[int64]map[string]string{}
 		var sharedVerifier fullVerifier
 		var curStore *world.ScriptedStore // the trust store inside the verifier in use
 		for _, op := range p.Ops {
@@ -260,7 +265,15 @@ func (l c01) Exec(env *core.Env) *core.Result {
 					kop = *firstVerify
 				}
 				levelName, override, enf := levelFromKnobs(kop.Int(3), kop.Int(4))
-				required := c01Required[op.Int(5)%9]
+				pristine := c01Required[op.Int(5)%9]
+				required := maps.Clone(pristine)
+				if p.W("heldMetadata") == 1 && pristine != nil {
+					if heldMeta[op.Int(5)%9] == nil {
+						heldMeta[op.Int(5)%9] = maps.Clone(pristine)
+					}
+					required = heldMeta[op.Int(5)%9]
+					res.Probe("required_metadata_map_kept_by_the_caller_across_calls")
+				}
 				collab := kop.Int(6)
 				store := world.NewScriptedStore()
 				store.Put("ca", "s", signers[0].Root().Cert)
@@ -307,7 +320,7 @@ func (l c01) Exec(env *core.Env) *core.Result {
 				stated := []string{"", blobMT, "text/plain"}[op.Int(7)%3]
 				var verr error
 				var outcome *notation.VerificationOutcome
-				want := world.JudgeWant{Required: required}
+				want := world.JudgeWant{Required: pristine}
 				switch entry {
 				case 0:
 					judged := func() {
@@ -373,6 +386,9 @@ func (l c01) Exec(env *core.Env) *core.Result {
 				verdict := "rejected"
 				if verr == nil {
 					verdict = "accepted"
+				}
+				if !maps.Equal(required, pristine) {
+					res.Probe("callers_required_metadata_map_changed_by_the_library")
 				}
 				key := fmt.Sprintf("entry=%d sig=%s presented-for=%d level=%s%v required=%d collab=%d stated=%q envelope-type-swapped=%v stream=%d", entry, sg.origin, art, levelName, override, op.Int(5)%9, collab, stated, op.Int(8) == 1, op.Int(9))
 				trace = append(trace, map[string]any{"verify": key, "verdict": verdict})
